@@ -22,11 +22,18 @@ Record obs := {
   o_perm : list N;             (* SanctionedAddresses listing *)
   o_temps : list entry;        (* TemporaryEntries listing *)
   o_live : list N;             (* proposals in deposit or voting period (gov keeper) *)
-  o_bals : list (N * Z);       (* balances of the user accounts *)
-  o_smin : Z; o_umin : Z }.
+  o_deps : list (N * amt2);    (* TotalDeposit of each of those proposals (denom A, denom B) *)
+  o_bals : list (N * Z);       (* balances of the user accounts, denom A *)
+  o_balsb : list (N * Z);      (* balances of the user accounts, denom B *)
+  o_smin : amt2; o_umin : amt2 }.
 
 Definition lookup_bal (l : list (N * Z)) (a : N) : Z :=
   match find (fun e => N.eqb (fst e) a) l with Some (_, v) => v | None => 0 end.
+
+Definition lookup_dep (l : list (N * amt2)) (p : N) : amt2 :=
+  match find (fun e => N.eqb (fst e) p) l with Some (_, v) => v | None => (0, 0) end.
+
+Definition amt2_eqb (x y : amt2) : bool := Z.eqb (fst x) (fst y) && Z.eqb (snd x) (snd y).
 
 Definition subsetN (x y : list N) : bool := forallb (fun a => memN a y) x.
 Definition same_set (x y : list N) : bool := subsetN x y && subsetN y x.
@@ -56,6 +63,24 @@ Definition stale_pids (ob : obs) : list N :=
   map (fun e => let '(_, p, _) := e in p)
       (filter (fun e => let '(_, p, _) := e in negb (memN p (o_live ob))) (o_temps ob)).
 
+(** Temporary entries that are new (or whose value changed) in this step.  They may only come
+    from the hook of an accepted submission / deposit, and only when the proposal's total deposit
+    covers the WHOLE immediate minimum of the entry's kind (every denom of it), the minimum being
+    non-empty. *)
+Definition new_entries (prev ob : obs) : list entry :=
+  filter (fun e : entry => let '(a, p, b) := e in negb (opt_eqb Bool.eqb (temp_lookup a p (o_temps prev)) (Some b)))
+         (o_temps ob).
+
+Definition new_entries_funded (prev : obs) (o : op) (ob : obs) : bool :=
+  forallb (fun e : entry => let '(_, p, b) := e in
+                    let thr := if b : bool then o_smin ob else o_umin ob in
+                    match o with
+                    | OSubmit _ _ _ _ _ | ODeposit _ _ _ _ =>
+                        o_ok ob && negb (zero2 thr) && le2 thr (lookup_dep (o_deps ob) p)
+                    | _ => false
+                    end)
+          (new_entries prev ob).
+
 Definition known_cancel_tag : string := "prop:cancelled proposal leaves temporary sanction entries in force".
 
 Definition at_step (i : N) (t : string) : string := t ++ " @step " ++ N_to_string i.
@@ -76,8 +101,12 @@ Definition prop_checks (unsanctionable universe users : list N) (cancelled : lis
   tag (forallb (fun a => Bool.eqb (memN a (o_sanct ob)) (status_from_listings ob a)) universe)
       "prop:sanction status is not what the latest temporary entry / permanent entry says" ++
   tag (protected_clean unsanctionable ob) "prop:protected account sanctioned" ++
-  tag (forallb (fun a => negb (memN a (o_sanct prev)) || (lookup_bal (o_bals prev) a <=? lookup_bal (o_bals ob) a)) users)
+  tag (forallb (fun a => negb (memN a (o_sanct prev)) ||
+                         ((lookup_bal (o_bals prev) a <=? lookup_bal (o_bals ob) a) &&
+                          (lookup_bal (o_balsb prev) a <=? lookup_bal (o_balsb ob) a))) users)
       "prop:balance of a sanctioned account decreased" ++
+  tag (new_entries_funded prev o ob)
+      "prop:temporary entry created although the deposit does not cover the whole immediate minimum" ++
   tag (negb (inflow_must_succeed prev o) || o_ok ob) "prop:transfer to a sanctioned account rejected" ++
   tag (match o with ONewBlock _ => o_ok ob | _ => true end) "prop:governance end blocker failed" ++
   tag (match o with ODirect false _ => negb (o_ok ob) | _ => true end)
@@ -90,8 +119,9 @@ Definition corr_checks (c : config) (universe users : list N) (s' : state) (ob :
   tag (same_set (perm s') (o_perm ob)) "corr:permanent listing" ++
   tag (temps_agree (temps s') (o_temps ob)) "corr:temporary listing" ++
   tag (same_set (map p_id (props s')) (o_live ob)) "corr:live proposals" ++
-  tag (forallb (fun a => Z.eqb (bal s' a) (lookup_bal (o_bals ob) a)) users) "corr:balances" ++
-  tag (Z.eqb (smin s') (o_smin ob) && Z.eqb (umin s') (o_umin ob)) "corr:params".
+  tag (forallb (fun pr => amt2_eqb (total_deposit pr) (lookup_dep (o_deps ob) (p_id pr))) (props s')) "corr:total deposits" ++
+  tag (forallb (fun a => Z.eqb (bal s' a) (lookup_bal (o_bals ob) a) && Z.eqb (balb s' a) (lookup_bal (o_balsb ob) a)) users) "corr:balances" ++
+  tag (amt2_eqb (smin s') (o_smin ob) && amt2_eqb (umin s') (o_umin ob)) "corr:params".
 
 (** The known finding (a cancelled proposal's entries stay) is recorded once and does not stop
     the checking of the rest of the history: it is reported (alone) only when nothing else fails
@@ -127,8 +157,8 @@ Definition bal_of (l : list (N * Z)) : N -> Z := fun a => lookup_bal l a.
     marker transfer by the holder, forced marker transfer by an administrator on its behalf ...).
     [sanctioned] is the implementation's IsSanctioned answer before the attempt. *)
 Definition model_route (sanctioned : bool) (before amt : Z) : bool * Z :=
-  let c := {| c_unsanct := []; c_gov_min := 1 |} in
-  let s0 := init 0 0 1%N 0 (fun _ => before) in
+  let c := {| c_unsanct := []; c_gov_min := (1, 0) |} in
+  let s0 := init (0, 0) (0, 0) 1%N 0 (fun _ => before) (fun _ => 0) in
   let s1 := if sanctioned then set_perm s0 [0%N] else s0 in
   let '(s2, ok) := step c s1 (OPayFee 0%N amt) in
   (ok, bal s2 0%N).
@@ -145,7 +175,7 @@ Definition check_route (name how : string) (sanctioned : bool) (before amt : Z) 
       ("prop:unsanctioned account could not move its funds via " ++ w)%string.
 
 Inductive case :=
-| CHist (unsanctionable : list N) (gov_min : Z) (universe users : list N)
+| CHist (unsanctionable : list N) (gov_min : amt2) (universe users : list N)
         (first_id : N) (t0 : Z) (ob0 : obs) (steps : list (op * obs))
 | CRoute (name how : string) (sanctioned : bool) (before amt : Z) (ok : bool) (after : Z).
 
@@ -153,7 +183,7 @@ Definition check (k : case) : list string :=
   match k with
   | CHist un gmin universe users first_id t0 ob0 steps =>
       let c := {| c_unsanct := un; c_gov_min := gmin |} in
-      let s0 := init (o_smin ob0) (o_umin ob0) first_id t0 (bal_of (o_bals ob0)) in
+      let s0 := init (o_smin ob0) (o_umin ob0) first_id t0 (bal_of (o_bals ob0)) (bal_of (o_balsb ob0)) in
       match corr_checks c universe users s0 ob0 ++
             prop_checks un universe users [] ob0 (OVote 0%N true) ob0 with
       | [] => check_hist c universe users s0 ob0 [] 1%N [] steps
